@@ -53,6 +53,17 @@ def siteFetchAbsolute := "daemon::ControlServer::Impl::handle_fetch>std::filesys
 def siteWriteFs := "daemon::ControlServer::Impl::handle_fetch>daemon::write_file_bytes#0:filesystem_error"
 def siteWriteRt := "daemon::ControlServer::Impl::handle_fetch>daemon::write_file_bytes#0:runtime_error"
 
+/-- the specification's verdict on the implementation's line, naming the boundary the delivery entered:
+    `viol:escape-<boundary>:<class>` -/
+def judgeAt (boundary : String) (impl : Option String) : String :=
+  match impl with
+  | none => "ok"
+  | some l =>
+    let v := EscapeSpec.judge l
+    if v.startsWith "viol:escape:" then
+      "viol:escape-" ++ boundary ++ ":" ++ ((((l.splitOn " ").headD "").splitOn ":").getD 1 "?")
+    else v
+
 /-- the model's line for a delivery entering at `boundary` with the given fired sites -/
 def predict (boundary : String) (fired : List String) : String :=
   match rootByName boundary with
@@ -172,7 +183,7 @@ def stepFrame (st : St) (peer : String) (plainHex : String) (impl : Option Strin
   match st.peers.lookup peer, bytesOfHex plainHex with
   | some key, some plain =>
     let tail := echoTail impl
-    let judge := (impl.map EscapeSpec.judge).getD "ok"
+    let judge := judgeAt "reader-thread" impl
     match Message.decodeSigned Spec.hmacSha256 plain key with
     | .ok msg =>
       match msg.payload with
@@ -212,7 +223,7 @@ def stepCtl (st : St) (rawHex : String) (impl : Option String) : St × String ×
   | some raw =>
     let tail := echoTail impl
     if impl.any (·.startsWith "skip:") then (st, (impl.getD ""), "ok") else
-    let judge := (impl.map EscapeSpec.judge).getD "ok"
+    let judge := judgeAt "control-accept-thread" impl
     let req := parseRequest raw
     let cmd := (getField req "COMMAND").map upper
     if !req.ok || cmd != some (ascii "FETCH") then (st, predict "control-accept-thread" [] ++ tail, judge) else
@@ -259,10 +270,11 @@ def step (st : St) (tok : List String) (_line : String) (impl : Option String) :
   | ["frame", peer, plain] => stepFrame st peer plain impl
   | ["frame", peer, plain, _raw] => stepFrame st peer plain impl
   | ["stream", peer, _raw] =>
-    if (st.peers.lookup peer).isSome then (st, predict "reader-thread" [] ++ echoTail impl, judge) else (st, "bad-op:unknown-peer", "ok")
-  | ["hs", _raw] => (st, predict "transport-accept-thread" [] ++ echoTail impl, judge)
+    if (st.peers.lookup peer).isSome then (st, predict "reader-thread" [] ++ echoTail impl, judgeAt "reader-thread" impl)
+    else (st, "bad-op:unknown-peer", "ok")
+  | ["hs", _raw] => (st, predict "transport-accept-thread" [] ++ echoTail impl, judgeAt "transport-accept-thread" impl)
   | ["ctl", raw] => stepCtl st raw impl
-  | ["tick"] => (st, predict "main-loop-tick" [] ++ echoTail impl, judge)
+  | ["tick"] => (st, predict "main-loop-tick" [] ++ echoTail impl, judgeAt "main-loop-tick" impl)
   | ["rt", _] =>
     -- real threads: the process survived iff the line is there at all; every probe must have been answered
     let verdict := match impl with
